@@ -104,22 +104,22 @@ PROPS['C01'] = {
 }
 
 PROPS['C02'] = {
-    'level': 'other',
+    'level': 'proof',
     'verus_units': ['hashiter', 'cms', 'lemma_cms'],
     'kani': {'quick': HASHITER_K + CMS_ADD_QUICK + CMS_MERGE[:1], 'thorough': HASHITER_K_THOROUGH + CMS_ADD_THOROUGH + CMS_MERGE[1:]},
-    'explanation': 'Verus proof (unbounded in w, d, counter type, hasher) of the real add_n/add: n is added to exactly the cell of obj in every row, all other cells unchanged, the result is min(old cells)+n, overflow panics are the only precondition. query_point/merge/clear/is_empty (iterator chains outside the Verus subset): Kani one-step contract harnesses from ARBITRARY table contents with a fully symbolic hasher (bounded in (w,d) and key universe, unbounded in history and counter values); Verus: hash iterator positions in range for all (m,k) and the history lemma (contracts => never underestimates, never exceeds total) for all histories.',
+    'explanation': 'Verus proofs, unbounded in w, d, counter type and hasher, of the whole CountMinSketch API on the real text: add_n/add (n added to exactly the cell of obj in every row, all other cells unchanged, result = min(old cells)+n), query_point (= that minimum), merge (cell-wise sum), clear / constructor (all zero, exactly w*d cells), is_empty; overflow panics are the only preconditions; iterator chains are rewritten to the loops they denote (logged rewrites, closure bodies verbatim). History lemma lemma_cms. Kani one-step contract harnesses from ARBITRARY table contents (bounded (w,d)) remain as counterexample engine and as cross-check of the iterator-chain rewrites with a fully symbolic hasher (bounded in (w,d) and key universe, unbounded in history and counter values); Verus: hash iterator positions in range for all (m,k) and the history lemma (contracts => never underestimates, never exceeds total) for all histories.',
     'trusted_base': COMMON_TRUST + [HASH_TRUST, 'unit cms: the num_traits bounds on the counter type are ONE contract trait `Counter` (exact checked_add or None, min, clone, zero/one)', 'lemma_cms.vrs states the add_n/merge contracts as spec predicates; their correspondence to the Kani assertions is by inspection (same sentences)'],
-    'assumptions': ['(w,d) grid {(1,1),(2,3),(2,2),(4,1),(1,4)} quick, +(3,2) thorough; 3-key universe', 'overflowing adds panic (checked_add().unwrap()) and are excluded by assume'],
-    'not_decided': ['(w,d) outside the grid: covered only through the unbounded HashIter range proof + generic code path'],
+    'assumptions': ['overflowing adds/merges panic (checked_add().unwrap()) and are excluded by precondition', 'std iterator adaptor semantics (enumerate/zip/map/min/all/collect, vec![x; n]) as stated by the logged rewrites'],
+    'not_decided': [],
 }
 
 PROPS['C06'] = {
     'level': 'other',
-    'verus_units': ['bloom', 'cuckoo', 'quotient', 'lemma_cms'],
+    'verus_units': ['bloom', 'cuckoo', 'quotient', 'cms', 'hll', 'lemma_cms'],
     'kani': {'quick': BLOOM_K[1:] + CMS_MERGE[:1] + HLL_MERGE + QF_UNION_QUICK, 'thorough': CMS_MERGE[1:] + QF_UNION_THOROUGH},
-    'explanation': 'merge contracts over the abstract view: Bloom union = bitwise or (Verus), Cuckoo union = class-wise sum of multisets with full rollback on Err (Verus, unbounded), CMS merge = cell-wise checked sum, HLL merge = register-wise max, Quotient union = canonical layout of A u B / Err iff it does not fit (Kani, bounded sizes). Commutativity/associativity/idempotence follow from or / + / max / set union on the views.',
+    'explanation': 'merge contracts over the abstract view, Verus (unbounded): Bloom union = bitwise or, Cuckoo union = class-wise sum of multisets with full rollback on Err, CMS merge = cell-wise checked sum, HLL merge = register-wise max, Quotient union Err => restored. Bounded (Kani): Quotient union Ok => canonical layout of A u B, Err iff it does not fit. Commutativity/associativity/idempotence follow from or / + / max / set union on the views.',
     'trusted_base': COMMON_TRUST + [HASH_TRUST, INTVEC_TRUST, FBS_TRUST, PANIC_ASSERTS],
-    'assumptions': ['"other operand unchanged" is the &Self borrow; the five types hold no interior mutability', 'CMS/HLL/Quotient parts are bounded stand-ins'],
+    'assumptions': ['"other operand unchanged" is the &Self borrow; the five types hold no interior mutability', 'the Ok-case of the quotient filter union is a bounded stand-in (table size)'],
     'not_decided': [],
 }
 
@@ -246,11 +246,11 @@ PROPS['C18'] = {
 
 PROPS['C19'] = {
     'level': 'other',
-    'verus_units': ['bloom', 'cuckoo', 'quotient', 'hll', 'reservoir', 'lossy', 'cmsheap'],
+    'verus_units': ['bloom', 'cuckoo', 'quotient', 'cms', 'hll', 'reservoir', 'lossy', 'cmsheap'],
     'kani': {'quick': TD19 + CMS_EMPTY + CMS_MERGE[:1] + HLL_MERGE + BLOOM_K[1:] + [('reservoirsampling.rs', 'c19_reservoir_clone_mid_fillup', 'bounded(k=4, one concrete history): clone during fill-up')] + [('filters__quotientfilter.rs', 'c19_qf_clear_is_fresh', 'bounded(4 slots, 16-bit remainders; arbitrary array contents)'),
                                                                   ('filters__cuckoofilter.rs', 'c19_cuckoo_clear_is_fresh', 'bounded(2x2 table)')],
              'thorough': []},
-    'explanation': 'clear() contracts: every field that later behaviour reads equals the fresh value (hidden counters included) -- Verus for Bloom, Cuckoo, Quotient, HLL, Reservoir, LossyCounter, CMSHeap (unbounded); Kani for CMS, TDigest (n_samples!) (bounded). is_empty exactness likewise. Equal states + deterministic code => equal continuations.',
+    'explanation': 'clear() contracts: every field that later behaviour reads equals the fresh value (hidden counters included) -- Verus for Bloom, Cuckoo, Quotient, CMS, HLL, Reservoir, LossyCounter, CMSHeap (unbounded: eight of nine structures); Kani for TDigest (n_samples!) (bounded, f64). is_empty exactness likewise. Equal states + deterministic code => equal continuations.',
     'trusted_base': COMMON_TRUST + [INTVEC_TRUST, FBS_TRUST],
     'assumptions': ['clone(): all nine types are derive(Clone) over owned data (Rc<T> in CMSHeap is shared but T is never mutated); std Clone contracts assumed, not verified'],
     'not_decided': ['clone() independence is not under contract'],
@@ -282,11 +282,11 @@ MANIFEST_TEXT = {
     'C01': _mt('Bloom + Cuckoo: unbounded Verus proofs of whole-view insert/query/delete/union contracts plus history lemmas; Quotient: bounded Kani one-step harnesses from every canonical state. Mixed, therefore "other".',
                'Trusted: hashing model (stable BuildHasher), IntVector/FixedBitSet stubs, HashIter::setup_f contract; quotient part bounded by table size; HashSet compat unverified.',
                'Verus contracts on extracted real functions (unbounded) + Kani contract harnesses (bounded stand-in for QuotientFilter)'),
-    'C02': _mt('Kani one-step contract harnesses on the real CMS code from arbitrary tables with a symbolic hasher (bounded (w,d)); Verus proves hash positions in range for all (m,k) and the history lemma.',
-               'Bounded in (w,d) and key universe; overflow panics excluded by assume; lemma/assertion correspondence by inspection.',
-               'Kani contract harnesses (bounded) + Verus history lemma'),
-    'C06': _mt('merge contracts over abstract views: Verus (Bloom, Cuckoo, unbounded) and Kani (CMS, HLL, Quotient, bounded sizes).',
-               'Trusted: stubs, hashing model; CMS/HLL/QF bounded.', 'Verus contracts + Kani contract harnesses (bounded)'),
+    'C02': _mt('Unbounded Verus proofs of add_n/add/query_point/merge/clear/is_empty/constructor on the real text (all w, d, counter types, hashers) plus the history lemma; Kani harnesses as counterexample engine.',
+               'Trusted: hashing model, the Counter contract trait standing for the num_traits bounds, iterator chains rewritten to the loops they denote (std iterator semantics), overflow panics excluded by precondition.',
+               'Verus contracts on extracted real functions + history lemma; Kani contract harnesses as counterexample engine'),
+    'C06': _mt('merge contracts over abstract views: unbounded Verus proofs for Bloom, Cuckoo, CMS, HLL (and the Err case of the quotient filter); the Ok case of the quotient filter union is a bounded Kani check. Mixed, therefore "other".',
+               'Trusted: stubs, hashing model, iterator-chain rewrites; QF union Ok-case bounded by table size.', 'Verus contracts on extracted real functions + Kani contract harnesses (QF union, bounded)'),
     'C09': _mt('Verus proof that the real LossyCounter::add preserves the Lossy Counting invariant for every ghost true-count function; guarantee lemmas on top.',
                'Trusted: vstd HashMap/entry specs, std drain/filter/collect semantics (predicate text captured from source), f64 formulas for epsilon/bound taken in real arithmetic. Harmonic table bound not decided.',
                'Verus contracts on the extracted real add() + guarantee lemmas'),
